@@ -16,6 +16,8 @@ TRUSTED = ['rustc MIR construction (nightly)', 'pdb-facts driver', 'rule engine 
 
 
 def run(ctx):
+    shared.borrow(ctx, 'C11', '3x2 ', '9x2 later-writes-of-the-root-wait-for-its-pending-removal')   # F49 also breaks the slot accounting / the content of the re-inserted tree
+    shared.walk_frees_children_of_the_root_found(ctx, '9w')   # F69
     shared.chain_link_markers_agree(ctx, '8m')
     F = ctx.F
     # 1. header follows its fields
